@@ -15,6 +15,12 @@ REQUIRED_THEOREMS = [
     "medit_vocabulary", "load_class",
     "geo_elements_load_save_partial", "geo_ptr_decode", "geo_quad_without_ptr_refuted", "geo_attr_chunk_partial",
     "medit_reads_reference",
+    # round 2: interoperability for obj/off/tet/xyz, geogram attributes in context + cell_ptr, more translated tables
+    "obj_reads_reference", "obj_read_by_reference", "off_reads_reference_actual", "off_reads_reference_partial",
+    "off_read_by_reference", "tet_reads_reference", "tet_read_by_reference", "xyz_reads_reference", "xyz_read_by_reference",
+    "geo_load_save_attrs_partial", "geo_attrs_come_back", "geo_attrs_nothing_else", "geo_reads_reference_mixed_cells",
+    "geo_type_rows_bridge", "geo_byte_size_bridge", "geo_to_string_bridge", "obj_rows_bridge",
+    "geo_typeOf_in_table", "geo_header_from_table", "obj_unlisted_prefix_ignored", "obj_listed_prefix_target",
 ]
 TRUSTED = [
     "Lean 4.33.0 kernel; axioms ⊆ {propext, Classical.choice, Quot.sound}",
@@ -826,7 +832,93 @@ def _medit_rows():
     return rows
 
 
+def _geo_type_tables():
+    """Attribute.Type.from_string / to_string / byte_size of mesh_attributes.py -> rows"""
+    import ast
+    tree, _ = T.load("mouette/mesh/mesh_attributes.py")
+    fs = T.find_def(tree, "_BaseAttribute.Type.from_string")
+    rows = []
+    body = [n for n in fs.body if not (isinstance(n, ast.Expr) and isinstance(n.value, ast.Constant))]
+    for n in body[:-1]:
+        ok = (isinstance(n, ast.If) and not n.orelse and isinstance(n.test, ast.Compare) and isinstance(n.test.left, ast.Name)
+              and n.test.left.id == "txt" and len(n.test.ops) == 1 and isinstance(n.test.ops[0], ast.In)
+              and isinstance(n.test.comparators[0], ast.Set) and len(n.body) == 1 and isinstance(n.body[0], ast.Return)
+              and isinstance(n.body[0].value, ast.Attribute) and isinstance(n.body[0].value.value, ast.Name) and n.body[0].value.value.id == "cls")
+        if not ok: raise T.TranslateError("from_string: statement is not `if txt in {…}: return cls.X`: " + ast.unparse(n)[:80])
+        sp = []
+        for e in n.test.comparators[0].elts:
+            if not (isinstance(e, ast.Constant) and isinstance(e.value, str)): raise T.TranslateError("from_string: non-literal spelling")
+            sp.append(e.value)
+        rows += [(x, n.body[0].value.attr) for x in sorted(sp)]
+    if not isinstance(body[-1], ast.Raise): raise T.TranslateError("from_string: last statement is not a raise")
+    bs = T.find_def(tree, "_BaseAttribute.Type.byte_size")
+    dicts = [n for n in ast.walk(bs) if isinstance(n, ast.Dict)]
+    src = ast.unparse(bs)
+    if len(dicts) != 1 or ".get(self.name, None)" not in src: raise T.TranslateError("byte_size: not `{…}.get(self.name, None)`")
+    sizes = []
+    for k, v in zip(dicts[0].keys, dicts[0].values):
+        if not (isinstance(k, ast.Constant) and isinstance(k.value, str) and isinstance(v, ast.Constant) and isinstance(v.value, int)):
+            raise T.TranslateError("byte_size: non-literal entry")
+        sizes.append((k.value, v.value))
+    ts = T.find_def(tree, "_BaseAttribute.Type.to_string")
+    tb = [n for n in ts.body if not (isinstance(n, ast.Expr) and isinstance(n.value, ast.Constant))]
+    special = []
+    for n in tb[:-1]:
+        if not (isinstance(n, ast.If) and ast.unparse(n.test).startswith("self.name.lower() == ") and isinstance(n.test.comparators[0], ast.Constant)
+                and len(n.body) == 1 and isinstance(n.body[0], ast.Return) and isinstance(n.body[0].value, ast.Constant)):
+            raise T.TranslateError("to_string: statement not recognised: " + ast.unparse(n)[:80])
+        special.append((n.test.comparators[0].value, n.body[0].value.value))
+    if ast.unparse(tb[-1]) != "return self.name.lower()": raise T.TranslateError("to_string: default is not `return self.name.lower()`")
+    return rows, sizes, special
+
+
+def _obj_rows():
+    """the `if toks[0] == '…'` chain of parse_obj_data -> (prefix, name of the list the branch appends to)"""
+    import ast
+    tree, _ = T.load("mouette/mesh/io/obj.py")
+    fn = T.find_def(tree, "parse_obj_data")
+    loops = [n for n in fn.body if isinstance(n, ast.For) and ast.unparse(n.iter) == "data"]
+    if len(loops) != 1: raise T.TranslateError("parse_obj_data: expected one `for line in data` loop")
+    chain = [n for n in loops[0].body if isinstance(n, ast.If) and "toks[0]" in ast.unparse(n.test)]
+    if len(chain) != 1: raise T.TranslateError("parse_obj_data: expected one dispatch chain on toks[0]")
+    rows, node = [], chain[0]
+    while True:
+        t = node.test
+        if not (isinstance(t, ast.Compare) and ast.unparse(t.left) == "toks[0]" and len(t.ops) == 1 and isinstance(t.ops[0], ast.Eq)
+                and isinstance(t.comparators[0], ast.Constant) and isinstance(t.comparators[0].value, str)):
+            raise T.TranslateError("parse_obj_data: branch test is not `toks[0] == '…'`")
+        apps = [c for st in node.body for c in ast.walk(st) if isinstance(c, ast.Call) and isinstance(c.func, ast.Attribute) and c.func.attr == "append"]
+        if len(apps) != 1: raise T.TranslateError(f"branch {t.comparators[0].value}: expected exactly one append")
+        tgt = ast.unparse(apps[0].func.value)
+        rows.append((t.comparators[0].value, tgt.split(".")[-1]))
+        if len(node.orelse) == 1 and isinstance(node.orelse[0], ast.If): node = node.orelse[0]
+        elif not node.orelse: break
+        else: raise T.TranslateError("parse_obj_data: trailing else branch")
+    src = ast.unparse(fn)
+    for needle in ("toks[1:4]", "for vstr in toks[1:]", "int(toks[1]) - 1, int(toks[2]) - 1", "keyify(v1, v2)"):
+        if needle not in src: raise T.TranslateError(f"parse_obj_data: expected `{needle}`")
+    return rows
+
+
+def _lean_str(x):
+    return '"' + x.replace("\\", "\\\\").replace('"', '\\"') + '"'
+
+
 def translate():
+    def site2():
+        rows, sizes, special = _geo_type_tables()
+        orows = _obj_rows()
+        body = ("namespace Mouette.Generated.C04Tables\n\n"
+                "/-- `Attribute.Type.from_string`: (spelling, member); sets in source order, spellings of a set sorted -/\n"
+                "def geoTypeRows : List (String × String) :=\n  [" + ", ".join(f"({_lean_str(a)}, {_lean_str(b)})" for a, b in rows) + "]\n\n"
+                "/-- `Attribute.Type.byte_size` -/\ndef geoByteSize : List (String × Nat) :=\n  [" + ", ".join(f"({_lean_str(a)}, {b})" for a, b in sizes) + "]\n\n"
+                "/-- `Attribute.Type.to_string`: exceptions to `self.name.lower()` -/\ndef geoToStringSpecial : List (String × String) :=\n  ["
+                + ", ".join(f"({_lean_str(a)}, {_lean_str(b)})" for a, b in special) + "]\n\n"
+                "/-- `parse_obj_data`: (line prefix, list appended to) in source order -/\ndef objRows : List (String × String) :=\n  ["
+                + ", ".join(f"({_lean_str(a)}, {_lean_str(b)})" for a, b in orows) + "]\n\nend Mouette.Generated.C04Tables\n")
+        T.write_generated("C04Tables", body)
+        return {"geoTypeRows": rows, "geoByteSize": sizes, "geoToStringSpecial": special, "objRows": orows}
+
     def site():
         rows = _medit_rows()
         body = ("import Mouette.Model.IO\nnamespace Mouette.Generated.C04Medit\nopen Mouette.IO\n\n"
@@ -835,7 +927,8 @@ def translate():
                 ", ".join(f'("{k}", .{c}, {n})' for k, c, n in rows) + "]\n\nend Mouette.Generated.C04Medit\n")
         T.write_generated("C04Medit", body)
         return {"rows": rows}
-    return [T.site("mouette/mesh/io/medit.py: import_medit dispatch (keyword, container, arity)", site)]
+    return [T.site("mouette/mesh/io/medit.py: import_medit dispatch (keyword, container, arity)", site),
+            T.site("mesh_attributes.py: Attribute.Type.from_string/to_string/byte_size; obj.py: parse_obj_data line-prefix dispatch", site2)]
 
 
 MANIFEST = {
@@ -846,7 +939,12 @@ MANIFEST = {
                    "and, at chunk level, geogram_ascii elements incl. facet_ptr pointer arithmetic for faces of any arity; the loaded "
                    "class is the dimensionality of the restricted content. Where the code cannot satisfy the statement (off quads / "
                    "polygons, stl quads / polygons) the exact actual behaviour is proved, the statement is proved under the precise "
-                   "restriction (`_partial`) and refuted on a witness (`decide`). The models are tied to the code by token-exact "
+                   "restriction (`_partial`) and refuted on a witness (`decide`). Round 2: interoperability in Lean for obj, off, tet, "
+                   "xyz, medit and geogram chunks (independent reference writers AND readers of Model/IORef.lean, IOGeogramRef.lean: "
+                   "import_f (refExport_f m) and refImport_f (export_f m) = restrict_f m for all meshes; mixed cell arities with "
+                   "cell_ptr); geogram user attributes in context (any number of attribute chunks per element set come back with "
+                   "container, name, type, arity, values; nothing invented); translated tables for Attribute.Type.from_string / "
+                   "to_string / byte_size and the obj line-prefix dispatch, each bridged by `decide`. The models are tied to the code by token-exact "
                    "comparison of the bytes mouette writes with the model's export, by model import vs mouette load on mouette-written "
                    "and on independently written files, and by a direct oracle (independent reference reader and writer per format, "
                    "vocabulary table, bit-exact coordinates on adversarial doubles)."),
